@@ -119,7 +119,7 @@ type dispEv struct {
 
 func (e *renv) addConn(rec *connRec) {
 	e.connMu.Lock()
-	e.addConn(rec)
+	e.conns = append(e.conns, rec)
 	e.connMu.Unlock()
 }
 
@@ -606,6 +606,8 @@ func (e *renv) runMacro(m mac, seqNo int) error {
 			})
 		}
 		e.waitRegistered(e.conns[m.A])
+		// the callback's wait-group slot is released: a Stop that was waiting for it returns now
+		e.settleStops()
 	case "silentclose":
 		if m.A >= len(e.conns) || e.conns[m.A].pe == nil {
 			return fmt.Errorf("no such connection")
